@@ -495,4 +495,202 @@ def mon_C09(run):
     return bad[:1]
 
 
-MONITORS = {"C09": mon_C09, "C03": mon_C03, "C10": mon_C10, "C01": mon_C01, "C02": mon_C02, "C11": mon_C11}
+def resize_timeline(run):
+    """for every resize/close op: step indices of check / lock (mutex taken) / done"""
+    tl = {}
+    prev = {}
+    for row in run.rows:
+        if row is None:
+            continue
+        i = row["op"]
+        op = run.ops[i]
+        if op["kind"] in ("resize", "close"):
+            e = tl.setdefault(i, {"n": 0 if op["kind"] == "close" else int(op["spec"][0]), "kind": op["kind"],
+                                  "start": op["start"], "check": None, "lock": None, "done": None})
+            lbl = row["obs"]["lbl"]
+            pl = prev.get(i)
+            if row["action"].startswith("step"):
+                if pl == "resize.check" and e["check"] is None:
+                    e["check"] = row["k"]
+                if pl == "resize.lock" and e["lock"] is None:
+                    e["lock"] = row["k"]
+                if lbl == "done" and e["done"] is None:
+                    e["done"] = row["k"]
+            prev[i] = lbl
+    return tl
+
+
+def admissions(run):
+    """get op -> step at which it obtained its slot (label became get.pop for the first time)"""
+    adm = {}
+    for row in run.rows:
+        if row is None:
+            continue
+        i = row["op"]
+        if run.ops[i]["kind"] == "get" and row["obs"]["lbl"] == "get.pop" and i not in adm:
+            adm[i] = row["k"]
+    return adm
+
+
+def mon_C07(run):
+    """resize(): max_size set, no admission over the limit after a resize returned, grow
+    exact, capacity at the end = last target"""
+    if not run.has_resize or run.has_close:
+        return []
+    bad = []
+    tl = resize_timeline(run)
+    adm = admissions(run)
+    locks = sorted((e["lock"], i) for i, e in tl.items() if e["lock"] is not None)
+    rows = run.rows
+    for row in rows:
+        if row is None:
+            continue
+        k, d = row["k"], row["obs"]
+        # (1) max_size reported after the resize returned, nobody else resizing
+        i = row["op"]
+        if i in tl and tl[i]["done"] == k and tl[i]["lock"] is not None:
+            others = [e for j, e in tl.items() if j != i and e["start"] <= k and (e["done"] is None or e["done"] > k)]
+            later = [l for l, j in locks if l > tl[i]["lock"] and l <= k]
+            if not others and not later and d["max"] != "?" and int(d["max"]) != tl[i]["n"]:
+                bad.append((k, f"resize({tl[i]['n']}) returned but max_size is {d['max']}", "max"))
+        # (2) admissions
+        for e in row["ev"]:
+            name, args = ev_args(e)
+            if name != "handout":
+                continue
+            g = int(args[0])
+            if g not in adm:
+                continue
+            a = adm[g]
+            done_before = [(e2["lock"], j) for j, e2 in tl.items()
+                           if e2["done"] is not None and e2["done"] < a and e2["lock"] is not None]
+            if not done_before:
+                continue
+            lk, j = max(done_before)
+            # the limit must not have been touched by another resize since
+            if any(l > lk and l <= k for l, _ in locks):
+                continue
+            if any(e2["start"] <= k and (e2["done"] is None or e2["done"] > a) and j2 != j and e2["lock"] is None
+                   for j2, e2 in tl.items()):
+                pass
+            n = tl[j]["n"]
+            pooled = [x for x in row["live"] if x not in run.discarded_in_hand(row)]
+            if len(pooled) > n:
+                bad.append((k, f"get #{g} was admitted after resize({n}) had returned and its hand-out leaves {len(pooled)} live objects", "over-limit"))
+        if bad:
+            return bad[:1]
+    # (3) grow exactness on solo resizes
+    for i, e in tl.items():
+        if e["done"] is None or e["start"] == 0:
+            continue
+        b, a_ = rows[e["start"] - 1], rows[e["done"]]
+        if b is None or a_ is None:
+            continue
+        seg = rows[e["start"] + 1:e["done"] + 1]
+        if any(r is None or r["op"] != i for r in seg):
+            continue
+        bo, ao = b["obs"], a_["obs"]
+        if bo["max"] == "?" or bo["closed"] == "1":
+            continue
+        old = int(bo["max"])
+        if e["n"] > old:
+            woken_new = len(parse_list(ao["woken"]) or []) - len(parse_list(bo["woken"]) or [])
+            if int(ao["permits"]) + woken_new - int(bo["permits"]) != e["n"] - old:
+                bad.append((e["done"], f"resize({old}->{e['n']}) added {int(ao['permits']) + woken_new - int(bo['permits'])} slots instead of {e['n'] - old}", "grow"))
+    if bad:
+        return bad[:1]
+    # (4) capacity at the end
+    probe = [ev_args(e)[1][1].split(":")[0] for r in rows if r and r["section"] == "probe" for e in r["ev"] if e.startswith("result(")]
+    if probe and locks:
+        last_n = tl[max(locks)[1]]["n"]
+        if all(e["done"] is not None for e in tl.values()):
+            got = sum(1 for x in probe if x == "ok")
+            if got != min(last_n, 8) or (last_n < 8 and probe[-1] != "timeout_wait"):
+                last = max(r["k"] for r in rows if r)
+                bad.append((last, f"after all objects returned the pool handed out {got} objects at once; the last resize target was {last_n}", "capacity"))
+    return bad[:1]
+
+
+def mon_C06(run):
+    """close(): final, prompt, leaves nothing behind"""
+    if not run.has_close:
+        return []
+    bad = []
+    tl = resize_timeline(run)
+    adm = admissions(run)
+    closes = [e for e in tl.values() if e["kind"] == "close" and e["done"] is not None]
+    if not closes:
+        return []
+    c = min(e["done"] for e in closes)     # first close() that returned
+    was_closed = False
+    rows = run.rows
+    for row in rows:
+        if row is None:
+            continue
+        k, d = row["k"], row["obs"]
+        if d["closed"] == "1":
+            was_closed = True
+        elif was_closed:
+            bad.append((k, "is_closed() went back to false", "reopen"))
+        if k == c:
+            woken = parse_list(d["woken"]) or []
+            for j, (lbl, susp) in row["labels"].items():
+                if run.ops[j]["kind"] == "get" and lbl == "get.acquire" and susp and str(j) not in woken:
+                    bad.append((k, f"close() returned but waiting get #{j} was not woken", "not-woken"))
+        if k > c:
+            for e in row["ev"]:
+                name, args = ev_args(e)
+                if name == "handout":
+                    g = int(args[0])
+                    if adm.get(g, 0) > c:
+                        bad.append((k, f"get #{g} obtained its slot after close() had returned and yielded an object", "get-after-close"))
+                if name == "result" and run.ops[int(args[0])]["start"] > c:
+                    r = args[1].split(":")[0]
+                    if r not in ("closed", "no_runtime", "cancelled"):
+                        bad.append((k, f"get #{args[0]} started after close() returned and ended with {r}", "get-after-close"))
+            i = row["op"]
+            op = run.ops[i]
+            if op["kind"] == "ret" and op["start"] > c and d["lbl"] == "done" and row["idle"] is not None:
+                if any(x.split(":")[0] == op["obj"] for x in row["idle"]):
+                    bad.append((k, f"object {op['obj']} returned after close() was kept in the pool", "kept-returned"))
+            if op["kind"] == "resize" and op["start"] > c and d["lbl"] == "done":
+                b = rows[op["start"] - 1]
+                if b is not None and all(r is not None and r["op"] == i for r in rows[op["start"] + 1:k + 1]):
+                    for comp in ("max", "permits", "size"):
+                        if b["obs"][comp] != d[comp] and "?" not in (b["obs"][comp], d[comp]):
+                            bad.append((k, f"resize() after close() changed {comp}: {b['obs'][comp]} -> {d[comp]}", "resize-after-close"))
+            if all(lbl == "done" for lbl, _ in row["labels"].values()) and row["idle"] is not None:
+                if row["idle"]:
+                    bad.append((k, f"closed pool at rest still holds idle objects {row['idle']}", "idle-retained"))
+                elif d["max"] != "0":
+                    bad.append((k, f"closed pool at rest reports max_size {d['max']}", "max-after-close"))
+        if bad:
+            return bad[:1]
+    return bad[:1]
+
+
+def signature(prop, run, model_lines, diverged, k, msg, kind):
+    """known-finding signature of a violation, or '' (see known_findings.txt).  A violation is
+    attributed to a known finding only if the model of the pinned code reproduces the whole
+    history step by step AND shows the documented mechanism at the violating step."""
+    if diverged or model_lines is None or k >= len(model_lines):
+        return ""
+    m = parse_obs(model_lines[k]) if model_lines[k].startswith("obs ") else {}
+    debt = int(m.get("debt", "0") or 0)
+    if prop == "C07" and kind in ("over-limit", "capacity") and debt > 0:
+        return "shrink-undercollect"
+    if prop == "C06" and kind in ("max-after-close", "kept-returned", "idle-retained"):
+        tl = resize_timeline(run)
+        closes = [e for e in tl.values() if e["kind"] == "close" and e["done"] is not None and e["lock"] is not None]
+        for e in tl.values():
+            if e["kind"] == "resize" and e["check"] is not None and e["lock"] is not None and e["lock"] <= k:
+                if any(e["check"] < c["done"] and e["lock"] > c["lock"] for c in closes):
+                    # the model must show the consequence too: max_size > 0 on the closed pool
+                    if m.get("max", "0") not in ("0", "?") or kind == "max-after-close":
+                        return "resize-races-close"
+    if prop == "C06" and kind == "idle-retained" and debt > 0:
+        return "close-retains-idle"
+    return ""
+
+
+MONITORS = {"C07": mon_C07, "C06": mon_C06, "C09": mon_C09, "C03": mon_C03, "C10": mon_C10, "C01": mon_C01, "C02": mon_C02, "C11": mon_C11}
